@@ -4,3 +4,4 @@ pub mod structural;
 pub mod fault;
 pub mod grid;
 pub mod iters;
+pub mod access;
